@@ -242,7 +242,7 @@ Lemma dg_elem_S fuel grp pos off :
             let pos1 := pos + 1 in
             let v := cstr val in
             let g1 := mark_present (add_field_decoder grp tv pos1 v) tv in
-            if t_group tr && has_group_count v then
+            if t_group tr && has_group_count_c c tv v then
               match decode_group c cp from fsize fuel g1 tv off1 with
               | Ok (g2, off2) => dg_elem c cp from fsize fuel g2 pos1 off2
               | Exc e => Exc e | OOB s => OOB s | Diverge => Diverge | Fuel => Fuel
@@ -431,7 +431,7 @@ Proof.
   { intros ->. cbn in Efirst. destruct (getPos tr =? 1) eqn:E1; [apply N.eqb_eq; assumption | discriminate]. }
   pose proof (elem_inv_add sg grp pos tv tr (cstr val) Hinv Hf Hp Hp1) as Hinv1.
   set (g1 := mark_present (add_field_decoder grp tv (pos + 1) (cstr val)) tv) in *.
-  destruct (t_group tr && has_group_count (cstr val)) eqn:Eg.
+  destruct (t_group tr && has_group_count_c c tv (cstr val)) eqn:Eg.
   - destruct (decode_group c cp from fsize fuel g1 tv (off + result)) as [[g2 off2]| | | |] eqn:HD; try discriminate.
     assert (Hsw : subs_wf c (mb_subs g1)).
     { destruct Hinv1 as (_ & Hs1 & _). rewrite Hs1. intros f0 sg0. apply (wf_table_unfold _ _ _ Hwf). }
@@ -640,7 +640,7 @@ Lemma part_inv_group c cp from fsize gfuel elem g m tr tv v off m2 off2 :
   opt_group c cp from fsize gfuel m tr tv v off = Ok (m2, off2) -> part_inv g m2.
 Proof.
   intros Hwf Hinv H. unfold opt_group in H.
-  destruct (t_group tr && has_group_count v).
+  destruct (t_group tr && has_group_count_c c tv v).
   - destruct (groups_inv c cp from fsize gfuel) as (_ & _ & HC).
     assert (Hsw : subs_wf c (mb_subs m)).
     { destruct Hinv as (_ & Hs & _). rewrite Hs. intros f0 sg0. apply (wf_table_unfold _ _ _ Hwf). }
